@@ -5,15 +5,24 @@
   each regenerated definition computes the hand-written model function of `TaurexModel/Chemistry.lean` that the C10 theorems
   are about and that `driver_c10` executes.  The code's arrays are functions `Nat → α`, its lists of arrays `List (Nat → α)`;
   `listOf n` / `rowsOf n` (Proofs/C10Src.lean) cut them to the `n` layers to compare with the model's lists.
+  The functions translated in the dialect `seq` (harness/translate_seq.py: `taurex.util.movingaverage`, the WHOLE
+  `TwoLayerGas.initialize_profile`, `ArrayGas.initialize_profile`, `AutoChemistry.determine_active_inactive`,
+  `Chemistry.__init__`) keep arrays and name lists as `List`s of run-time length and raise where Python / numpy raise
+  (`Except.error "ValueError"`); `outcomeOf` reads that as the model's `Outcome`.  Externals are instantiated with the model's
+  `npInterp` / `linspace` (TaurexModel/NpInterp.lean); Python's `int()` / int → float are the parameters `pyInt` / `toF`,
+  whose properties are explicit hypotheses; the cumsum trick of `movingaverage` equals the model's window means over ℝ only
+  (`src_movingaverage`), it enters the generic `src_two_layer_gas` as the hypothesis `hma`.
   A source change that alters one of these functions makes the corresponding theorem fail to check.
 -/
 import TaurexModel.Gen.SrcC10
 import TaurexModel.Chemistry
 import Proofs.C10Src
+import Proofs.SeqSrcReal
 set_option linter.unusedSectionVars false
 
 namespace Taurex.C10Src
 open Taurex Taurex.NpInterp Taurex.Chemistry
+open Taurex.SeqSrc (outcomeOf outcomeOf_ok assemble_tie assemble_side ma_cumsum argmin_abs getInt_nat)
 
 section
 variable {α : Type} [Add α] [Sub α] [Mul α] [Div α] [Neg α] [LT α] [LE α]
@@ -103,6 +112,239 @@ theorem src_mu_profile (n m : Nat) (mix : Nat → Nat → α) (massAt : Nat → 
   intro i _
   exact foldl_fun_apply (fun k i => mix k i * massAt k) (List.range m) (fun _ => 0) i
 
+/-! ### the whole `PowerGas.initialize_profile` (coefficient look-up + formula) -/
+
+/-- the formula part of the `seq` translation of `PowerGas.initialize_profile`, with numpy's shape test of `P`-terms
+    against `T`-terms, for resolved coefficients and profiles of equal length: `powerGas` -/
+theorem power_formula (m a b g bf : α) (rpow : α → α → α) (hpow : ∀ x y, rpow x y = exp (y * log x))
+    (P T : List α) (h : P.length = T.length) :
+    outcomeOf "InvalidModelException"
+      (if !(Gen.Np.bcastOk
+            (List.length (List.map (fun x__ => ((pow10 (g * (-(1 : α)))) * x__))
+              (List.map (fun x__ => (rpow x__ a)) (List.map (fun x__ => (x__ * bf)) P))))
+            (List.length (List.map (fun x__ => (pow10 x__)) (List.map (fun x__ => (b / x__)) T))))
+       then (Except.error "ValueError" : Except String (List α))
+       else Except.ok (List.map (fun x__ => (x__ * x__)) (List.map (fun x__ => ((1 : α) / x__))
+          (List.map (fun x__ => (((1 : α) / (sqrt m)) + x__)) (List.map (fun x__ => ((1 : α) / x__))
+            (List.map (fun x__ => (sqrt x__))
+              (Gen.Np.zip2 (fun x__ y__ => (x__ * y__))
+                (List.map (fun x__ => ((pow10 (g * (-(1 : α)))) * x__))
+                  (List.map (fun x__ => (rpow x__ a)) (List.map (fun x__ => (x__ * bf)) P)))
+                (List.map (fun x__ => (pow10 x__)) (List.map (fun x__ => (b / x__)) T)))))))))
+      = Outcome.ok (powerGas m a b g bf P T) := by
+  have hb : Gen.Np.bcastOk
+      (List.length (List.map (fun x__ => ((pow10 (g * (-(1 : α)))) * x__))
+        (List.map (fun x__ => (rpow x__ a)) (List.map (fun x__ => (x__ * bf)) P))))
+      (List.length (List.map (fun x__ => (pow10 x__)) (List.map (fun x__ => (b / x__)) T))) = true := by
+    simp [Gen.Np.bcastOk, h]
+  rw [hb]
+  simp only [Bool.not_true, Bool.false_eq_true, if_false, outcomeOf_ok]
+  congr 1
+  unfold Gen.Np.zip2 powerGas
+  rw [if_pos (by simp [h])]
+  simp only [List.map_map, List.zipWith_map_left, List.zipWith_map_right, List.map_zipWith, Function.comp_def, hpow]
+
+/-- **`PowerGas.initialize_profile`, the whole function**: every coefficient the constructor left `None` is taken from the
+    tuple `check_known(profile_type)` returns (external `known`; its components are `(alpha, beta, gamma, A)`), a coefficient
+    that is `None` there too raises ValueError (`error`), then the formula: `powerGasAuto`.  `np.power(P, alpha)` is read as
+    `exp (alpha * log P)` (`hpow`); pressure and temperature profile have the same length.  Generic. -/
+theorem src_power_gas_full (ms a b g : Option α) (known : String → Option α × Option α × Option α × Option α)
+    (ptype : String) (bf : α) (rpow : α → α → α) (hpow : ∀ x y, rpow x y = exp (y * log x)) (P T : List α) (n : Nat)
+    (h : P.length = T.length) :
+    outcomeOf "InvalidModelException" (Gen.SrcC10.power_gas_full n T P a b bf known g ms ptype rpow)
+      = powerGasAuto ms a b g (known ptype) bf P T := by
+  unfold Gen.SrcC10.power_gas_full powerGasAuto powerCoeff
+  dsimp only
+  generalize known ptype = k
+  obtain ⟨ka, kb, kg, kA⟩ := k
+  cases ms <;> cases kA <;> cases a <;> cases ka <;> cases b <;> cases kb <;> cases g <;> cases kg <;>
+    simp only [Option.elim_some, Option.elim_none] <;>
+    first
+      | exact power_formula _ _ _ _ bf rpow hpow P T h
+      | rfl
+
+/-! ### `ArrayGas` and the whole `TwoLayerGas.initialize_profile` (dialect `seq`: lists of run-time length, Python ints,
+    numpy's shape tests as `Except.error "ValueError"`) -/
+
+section
+variable [NatConv α] [OfNat α 2] [OfNat α 100]
+
+/-- `ArrayGas.initialize_profile` (`np.interp(np.linspace(0, 1, nlayers), np.linspace(0, 1, len(arr)), arr)`) is `arrayGas`;
+    `np.linspace` / `np.interp` are the model's `linspace` / `npInterp` (TaurexModel/NpInterp.lean).  Generic. -/
+theorem src_array_gas (arr : List α) (n : Nat) :
+    Gen.SrcC10.array_gas n (fun x xp fp => npInterp xp fp x) (fun a b k => linspace a b k) arr = arrayGas arr n := by
+  unfold Gen.SrcC10.array_gas arrayGas
+  rfl
+
+/-- `wsize = int(…); if wsize % 2 == 0: wsize += 1` on Python ints, for a non-negative truncation, is `oddWindow` -/
+theorem odd_window_int (t : Nat) :
+    (if decide ((Int.ofNat t) % 2 = (0 : Int)) then Int.ofNat t + (1 : Int) else Int.ofNat t)
+      = Int.ofNat (if t % 2 = 0 then t + 1 else t) := by
+  simp only [Int.ofNat_eq_natCast, decide_eq_true_eq]
+  by_cases h : t % 2 = 0
+  · have : ((t : Int) % 2 = 0) := by omega
+    rw [if_pos this, if_pos h]; simp
+  · have : ¬ ((t : Int) % 2 = 0) := by omega
+    rw [if_neg this, if_neg h]
+
+theorem oddWindow_odd_gen (n : Nat) (w : α) : oddWindow n w % 2 = 1 := by
+  unfold oddWindow
+  simp only []
+  split <;> omega
+
+/-- **`TwoLayerGas.initialize_profile`, the whole function** (the layer next to the boundary pressure by `argmin`, the
+    transition layers `max(int(P_layer - w/2), 0)` / `min(int(P_layer + w/2), nlayers - 1)`, `np.interp` in log P through the
+    four nodes, the odd smoothing window, `movingaverage` of `log10`, the border store into `self._mix_profile`) is
+    `twoLayerGas`; numpy's ValueError at the slice store is `error`.  `np.interp` is the model's `npInterp`, `pyInt` is
+    Python's `int()`, `toF` the int → float conversion.  Hypotheses (facts about numbers, none about the code):
+    `hF` float(n) is the model's `ofNat'`; `hInt` the model's `truncNat` is the non-negative part of `int()`; `hend`, `hw`
+    the upper transition layer and the window product are not negative (true for a non-negative smoothing window);
+    `hn` at least one layer; `hhalf` `int(k / 2) = k // 2` for `k ≥ 0`; `hma` the cumsum trick of `movingaverage` gives the
+    window means (`src_movingaverage`: exact over ℝ, up to rounding on floats).  Generic in the carrier. -/
+theorem src_two_layer_gas (surf top pb w : α) (nlayers : Nat) (pressure : List α) (pyInt : α → Int) (toF : Int → α)
+    (hn : 1 ≤ nlayers)
+    (hF : ∀ n : Nat, toF (Int.ofNat n) = ofNat' n)
+    (hInt : ∀ x : α, max (pyInt x) 0 = Int.ofNat (truncNat x))
+    (hend : 0 ≤ pyInt (ofNat' (argminAbs pressure pb) + w / 2))
+    (hw : 0 ≤ pyInt (ofNat' nlayers * (w / 100)))
+    (hhalf : ∀ k : Nat, pyInt (toF (Int.ofNat k) / 2) = Int.ofNat (k / 2))
+    (hma : Gen.SrcC10.movingaverage ((twoLayerRaw surf top pb w nlayers pressure).map log10)
+        (Int.ofNat (oddWindow nlayers w)) toF
+      = Except.ok (movingAverage ((twoLayerRaw surf top pb w nlayers pressure).map log10) (oddWindow nlayers w))) :
+    outcomeOf "InvalidModelException"
+      (Gen.SrcC10.two_layer_gas nlayers pressure (fun x xp fp => npInterp xp fp x) pb surf top pyInt w toF)
+      = twoLayerGas surf top pb w nlayers pressure := by
+  have hnonneg : ∀ x : α, 0 ≤ pyInt x → pyInt x = Int.ofNat (truncNat x) := by
+    intro x hx
+    rw [← hInt x]; omega
+  have hchem : (List.map (fun x__ => pow10 x__)
+        (List.map (fun x__ => npInterp
+            (List.map (fun x__ => log x__) (List.reverse
+              [pressure.getD 0 (0 : α),
+               Gen.Np.getInt (0 : α) pressure (max (pyInt (toF (Int.ofNat (Gen.Np.argmin (List.map
+                  (fun x__ => if x__ < (0 : α) then (-x__) else x__) (List.map (fun x__ => x__ - pb) pressure)))) - w / 2))
+                  (0 : Int)),
+               Gen.Np.getInt (0 : α) pressure (min (pyInt (toF (Int.ofNat (Gen.Np.argmin (List.map
+                  (fun x__ => if x__ < (0 : α) then (-x__) else x__) (List.map (fun x__ => x__ - pb) pressure)))) + w / 2))
+                  (Int.ofNat nlayers - (1 : Int))),
+               pressure.getD (pressure.length - 1) (0 : α)]))
+            (List.map (fun x__ => log10 x__) (List.reverse
+              [Gen.SrcC10.two_layer_mixRatioSurface surf, Gen.SrcC10.two_layer_mixRatioSurface surf,
+               Gen.SrcC10.two_layer_mixRatioTop top, Gen.SrcC10.two_layer_mixRatioTop top])) x__)
+          (List.map (fun x__ => log x__) (List.reverse pressure))))
+      = twoLayerRaw surf top pb w nlayers pressure := by
+    unfold twoLayerRaw Gen.SrcC10.two_layer_mixRatioSurface Gen.SrcC10.two_layer_mixRatioTop
+    rw [argmin_abs, hF, hInt, hnonneg _ hend]
+    have hmin : min (Int.ofNat (truncNat (ofNat' (argminAbs pressure pb) + w / 2))) (Int.ofNat nlayers - (1 : Int))
+        = Int.ofNat (min (truncNat (ofNat' (argminAbs pressure pb) + w / 2)) (nlayers - 1)) := by
+      simp only [Int.ofNat_eq_natCast]; omega
+    rw [hmin, getInt_nat, getInt_nat]
+    simp only [List.map_map, List.map_reverse, Function.comp_def, List.reverse_cons, List.reverse_nil, List.nil_append,
+      List.cons_append, List.map_cons, List.map_nil]
+  unfold Gen.SrcC10.two_layer_gas twoLayerGas
+  simp only [hchem]
+  rw [hF, hnonneg _ hw, odd_window_int]
+  have hodd : (if truncNat (ofNat' nlayers * (w / 100)) % 2 = 0
+      then truncNat (ofNat' nlayers * (w / 100)) + 1 else truncNat (ofNat' nlayers * (w / 100)))
+      = oddWindow nlayers w := rfl
+  rw [hodd, hma]
+  simp only []
+  obtain ⟨hle, hone⟩ := assemble_side ((twoLayerRaw surf top pb w nlayers pressure).map log10) (oddWindow nlayers w)
+    (oddWindow_odd_gen nlayers w)
+  rw [List.length_map] at hle hone
+  have hsub : Int.ofNat (twoLayerRaw surf top pb w nlayers pressure).length
+      - Int.ofNat (List.map (fun x__ => pow10 x__) (movingAverage ((twoLayerRaw surf top pb w nlayers pressure).map log10)
+          (oddWindow nlayers w))).length
+      = Int.ofNat ((twoLayerRaw surf top pb w nlayers pressure).length
+        - (List.map (fun x__ => pow10 x__) (movingAverage ((twoLayerRaw surf top pb w nlayers pressure).map log10)
+          (oddWindow nlayers w))).length) := by
+    simp only [Int.ofNat_eq_natCast, List.length_map]; omega
+  rw [hsub, hhalf]
+  exact assemble_tie "InvalidModelException" (by decide) _ _ (by simpa using hone)
+
 end
+
+end
+
+/-! ### the active / inactive split -/
+
+/-- the pairs `(name, position)` of the gases satisfying `keep`, as the comprehension over `enumerate` builds them: their
+    names are the filtered list, their positions the model's `maskFrom` -/
+theorem unzip_filter (keep : String → Bool) : ∀ (gs : List String) (k : Nat),
+    (List.map (fun it => (it.1, it.2)) (List.filter (fun it => keep it.1) (List.zipIdx gs k))).map (fun p => p.1)
+      = gs.filter keep ∧
+    (List.map (fun it => (it.1, it.2)) (List.filter (fun it => keep it.1) (List.zipIdx gs k))).map (fun p => p.2)
+      = maskFrom keep gs k
+  | [], _ => by simp [maskFrom]
+  | g :: gs, k => by
+    have ih := unzip_filter keep gs (k + 1)
+    rw [List.zipIdx_cons]
+    by_cases h : keep g = true
+    · simp only [List.filter_cons, h, if_true, List.map_cons, maskFrom]
+      exact ⟨by rw [ih.1], by rw [ih.2]⟩
+    · simp only [List.filter_cons, h, maskFrom]
+      exact ih
+
+/-- **`AutoChemistry.determine_active_inactive`** (`zip(*[(m, i) for i, m in enumerate(self.gases) if m in
+    self.availableActive])`, the ValueError of unpacking an empty `zip` caught, the same with `not in`, then `np.array` of the
+    masks that are not None) leaves in `_active`, `_inactive` the model's `activeGases`, `inactiveGases` and in `_active_mask`,
+    `_inactive_mask` the model's `activeMask`, `inactiveMask` — `None` instead of an empty mask.  Core only. -/
+theorem src_determine_active_inactive (gases avail : List String) :
+    Gen.SrcC10.determine_active_inactive avail gases
+      = (activeGases gases avail,
+         (if (activeMask gases avail).isEmpty then none else some (activeMask gases avail)),
+         inactiveGases gases avail,
+         (if (inactiveMask gases avail).isEmpty then none else some (inactiveMask gases avail))) := by
+  have key : ∀ keep : String → Bool,
+      (if (List.map (fun it => (it.1, it.2)) (List.filter (fun it => keep it.1) (List.zipIdx gases))).isEmpty
+        then (([] : List String), (none : Option (List Nat)))
+        else ((List.map (fun it => (it.1, it.2)) (List.filter (fun it => keep it.1) (List.zipIdx gases))).map (fun p => p.1),
+              some ((List.map (fun it => (it.1, it.2)) (List.filter (fun it => keep it.1) (List.zipIdx gases))).map
+                (fun p => p.2))))
+      = (gases.filter keep, if (maskFrom keep gases 0).isEmpty then none else some (maskFrom keep gases 0)) := by
+    intro keep
+    obtain ⟨h1, h2⟩ := unzip_filter keep gases 0
+    have hemp : (List.map (fun it => (it.1, it.2)) (List.filter (fun it => keep it.1) (List.zipIdx gases))).isEmpty
+        = (maskFrom keep gases 0).isEmpty := by
+      rw [← h2]; simp
+    rw [hemp, h2]
+    by_cases he : (maskFrom keep gases 0).isEmpty = true
+    · simp only [he, if_true]
+      have : gases.filter keep = [] := by
+        rw [← h1]
+        have : (List.map (fun it => (it.1, it.2)) (List.filter (fun it => keep it.1) (List.zipIdx gases))).isEmpty = true :=
+          hemp ▸ he
+        rw [List.isEmpty_iff] at this
+        rw [this]; rfl
+      rw [this]
+    · simp only [he, h1]
+      rfl
+  unfold Gen.SrcC10.determine_active_inactive activeGases inactiveGases activeMask inactiveMask
+  simp only [Option.map_id', key (fun g => avail.contains g), key (fun g => !avail.contains g)]
+
+/-- **`Chemistry.__init__`** (the molecule list of the k-table cache or of the cross-section cache, by the global option
+    `opacity_method`, minus the names in the option `deactive_molecules` when it is a list) leaves in `_avail_active` the
+    model's `availableActive`.  The caches and `GlobalCache` are externals (parameters).  Core only. -/
+theorem src_chemistry_init (kt op : List String) (ktables : Bool) (deactive : Option (List String)) :
+    Gen.SrcC10.chemistry_init deactive kt ktables op = availableActive (if ktables then kt else op) deactive := by
+  unfold Gen.SrcC10.chemistry_init availableActive
+  cases deactive <;> cases ktables <;> simp [Option.elim]
+
+/-- the same with `deactive_molecules` given as ONE bare string: it names that molecule (`[deactive_list]`) -/
+theorem src_chemistry_init_str (kt op : List String) (ktables : Bool) (d : String) :
+    Gen.SrcC10.chemistry_init_str d kt ktables op = availableActive (if ktables then kt else op) (some [d]) := by
+  unfold Gen.SrcC10.chemistry_init_str availableActive
+  cases ktables <;> simp
+
+/-- **`taurex.util.movingaverage`** (the cumsum trick `ret = cumsum(a); ret[n:] = ret[n:] - ret[:-n]; ret[n-1:] / n`, with
+    the shape tests numpy makes at the subtraction and at the slice store) for a window `w ≥ 1` never raises and returns
+    the `len(a) - w + 1` window means of the model's `movingAverage` (none when the window is longer than the array).
+    An algebraic identity (telescoping sums): over ℝ. -/
+theorem src_movingaverage (a : List ℝ) (w : Nat) (hw : 1 ≤ w) (toF : Int → ℝ)
+    (hF : ∀ n : Nat, toF (Int.ofNat n) = (n : ℝ)) :
+    Gen.SrcC10.movingaverage a (Int.ofNat w) toF = Except.ok (movingAverage a w) := by
+  obtain ⟨h1, h2, h3⟩ := ma_cumsum a w hw (toF (Int.ofNat w)) (hF w)
+  unfold Gen.SrcC10.movingaverage
+  simp only [h1, h2, Bool.not_true, Bool.false_eq_true, if_false, h3]
 
 end Taurex.C10Src
